@@ -112,9 +112,13 @@ impl Workspace {
   /// Removes a definition from workspace, deletes all model evaluators,
   /// switches a workspace to state `STASHING`.
   pub fn remove(&mut self, namespace: &str, name: &str) {
-    self.definitions_by_namespace.remove(namespace);
-    self.definitions_by_name.remove(name);
-    self.definitions.retain(|d| d.namespace() != namespace && d.name() != name);
+    let count = self.definitions.len();
+    self.definitions.retain(|d| d.namespace() != namespace || d.name() != name);
+    if self.definitions.len() < count {
+      // only the removed definitions held these two reservations
+      self.definitions_by_namespace.remove(namespace);
+      self.definitions_by_name.remove(name);
+    }
     self.clear_model_evaluators();
   }
   /// Replaces a definition in workspace, deletes all model evaluators,
